@@ -51,13 +51,17 @@ func fundingSplit(c *Ctx, rule string, fn *ssa.Function, name string, amountF, a
 	obl := newOblSet(c, rule)
 	defer obl.flush()
 	key := func(s string) string { return "Funding." + name + ":" + s }
-	kPro, kIter, kHand, kDrain, kEpi := key("prologue"), key("taking-loop-conserves"), key("hand-over"), key("draining-loop-conserves"), key("success-only-when-nothing-remains")
-	obl.expect(kPro, fn.Pos(), "R := amount, i := 0, nothing but a zero amount appended")
-	obl.expect(kIter, fn.Pos(), "per iteration: appended parts add up to A_i with the account of part i; R decreases by what the first result received; no part exceeds what remains; i advances by one")
-	obl.expect(kHand, fn.Pos(), "between the loops nothing is appended and the draining index starts where the taking index stopped")
-	obl.expect(kDrain, fn.Pos(), "per iteration: A_j with the account of part j goes to the second result; j advances by one")
+	kPro, kIter, kHand, kEnd, kEpi := key("prologue"), key("each-iteration-conserves"), key("hand-over"), key("every-part-is-consumed"), key("success-only-when-nothing-remains")
+	obl.expect(kPro, fn.Pos(), "the loops start with R := amount at the first part, nothing but a zero amount appended before them")
+	obl.expect(kIter, fn.Pos(), "per iteration: appended parts add up to the consumed part A_i with its account; R decreases by what the first result received; no part exceeds what remains")
+	obl.expect(kHand, fn.Pos(), "between two loops nothing is appended and the next loop continues at the index (and remaining amount) where the previous one stopped")
+	obl.expect(kEnd, fn.Pos(), "the function returns only when the parts are exhausted or the rest was appended to the second result")
 	if needExact {
 		obl.expect(kEpi, fn.Pos(), "a success return lies behind the guard R = 0")
+	}
+	if len(fn.Params) < 2 {
+		obl.undecided(key("loop-structure"), fn.Pos(), "unexpected signature")
+		return
 	}
 	heads := loopHeads(fn)
 	// the two result locals, by return position
@@ -73,51 +77,72 @@ func fundingSplit(c *Ctx, rule string, fn *ssa.Function, name string, amountF, a
 			}
 		}
 	}
-	// loop heads: the taking loop carries a money value, the draining loop only an index
-	var takeHead, drainHead *ssa.BasicBlock
-	var rPhi, iPhi, jPhi *ssa.Phi
+	type loopInfo struct {
+		head     *ssa.BasicBlock
+		money    *ssa.Phi
+		idx      *ssa.Phi
+		isRange  bool
+		elemIdx  string // description of the value that indexes f.Parts in the body
+		elemAff  aff
+	}
+	loops := map[*ssa.BasicBlock]*loopInfo{}
 	for h := range heads {
-		var money, ints []*ssa.Phi
+		li := &loopInfo{head: h}
+		nMoney, nInt := 0, 0
 		for _, ins := range h.Instrs {
 			phi, ok := ins.(*ssa.Phi)
 			if !ok {
 				break
 			}
-			if isNamed(phi.Type(), pkgMachine, "MonetaryInt") || strings.HasSuffix(phi.Type().String(), "machine.MonetaryInt") {
-				money = append(money, phi)
+			if strings.HasSuffix(phi.Type().String(), "machine.MonetaryInt") {
+				li.money = phi
+				nMoney++
 			} else if b, ok := phi.Type().Underlying().(*types.Basic); ok && b.Info()&types.IsInteger != 0 {
-				ints = append(ints, phi)
+				li.idx = phi
+				nInt++
 			}
 		}
-		switch {
-		case len(money) == 1 && len(ints) == 1 && takeHead == nil:
-			takeHead, rPhi, iPhi = h, money[0], ints[0]
-		case len(money) == 0 && len(ints) == 1 && drainHead == nil:
-			drainHead, jPhi = h, ints[0]
-		default:
-			obl.undecided(key("loop-structure"), fn.Pos(), "the function does not have the expected loop structure (one loop carrying the remaining amount and an index, one loop carrying an index)")
+		if nInt != 1 || nMoney > 1 {
+			obl.undecided(key("loop-structure"), fn.Pos(), fmt.Sprintf("loop at block %d carries %d index and %d money values (expected one index, at most one amount)", h.Index, nInt, nMoney))
 			return
 		}
+		li.elemIdx, li.elemAff = descr(li.idx, 0), affSym(descr(li.idx, 0))
+		if li.idx.Comment == "rangeindex" {
+			li.isRange = true
+			for _, r := range *li.idx.Referrers() {
+				if bo, ok := r.(*ssa.BinOp); ok && bo.Op == token.ADD && bo.X == ssa.Value(li.idx) {
+					if n, isC := constInt(bo.Y); isC && n == 1 {
+						li.elemIdx = bo.Name()
+						li.elemAff = affSym(descr(li.idx, 0)).plus(aff{"1": 1}, 1)
+					}
+				}
+			}
+		}
+		loops[h] = li
 	}
-	if takeHead == nil || drainHead == nil || resLocal[0] == nil || resLocal[1] == nil || len(fn.Params) < 2 {
-		obl.undecided(key("loop-structure"), fn.Pos(), "taking loop, draining loop or the two result locals not found")
+	if len(loops) == 0 || resLocal[0] == nil || resLocal[1] == nil {
+		obl.undecided(key("loop-structure"), fn.Pos(), "no loop over the parts, or the two result locals were not found")
 		return
 	}
 	fName := fn.Params[0].Name()
 	amountSym := affSym(fn.Params[1].Name())
-	R, I, J := affSym(descr(rPhi, 0)), affSym(descr(iPhi, 0)), affSym(descr(jPhi, 0))
-	partAmount := func(idx *ssa.Phi) aff {
-		return affSym(fName + ".Parts[" + descr(idx, 0) + "].Amount")
-	}
-	partAccount := func(idx *ssa.Phi) string { return fName + ".Parts[" + descr(idx, 0) + "].Account" }
+	partAmount := func(li *loopInfo) aff { return affSym(fName + ".Parts[" + li.elemIdx + "].Amount") }
+	partAccount := func(li *loopInfo) string { return fName + ".Parts[" + li.elemIdx + "].Account" }
 
-	// bookkeeping of appended parts: amount and account per part literal → array → result local
+	// bookkeeping of appended parts: amount and account per part value → array → result local
 	hook := func(p *affPath, ins ssa.Instruction) {
 		st, ok := ins.(*ssa.Store)
 		if !ok {
 			return
 		}
 		switch a := st.Addr.(type) {
+		case *ssa.Alloc:
+			// part := f.Parts[i] (a whole part copied into a local)
+			if isNamed(a.Type().(*types.Pointer).Elem(), pkgMachine, "FundingPart") {
+				d := descr(st.Val, 0)
+				p.notes["lit:"+a.Name()] = []aff{affSym(d + ".Amount")}
+				p.strs["lit:"+a.Name()] = []string{d + ".Account"}
+			}
 		case *ssa.FieldAddr:
 			f := fieldOfAddr(a)
 			if lit, ok := a.X.(*ssa.Alloc); ok {
@@ -128,7 +153,6 @@ func fundingSplit(c *Ctx, rule string, fn *ssa.Function, name string, amountF, a
 					p.strs["lit:"+lit.Name()] = []string{descr(st.Val, 0)}
 				}
 				if sameField(f, partsF) {
-					// L.Parts = append(load L.Parts, slice(arr)…)
 					which := -1
 					for k := 0; k < 2; k++ {
 						if lit == resLocal[k] {
@@ -141,11 +165,15 @@ func fundingSplit(c *Ctx, rule string, fn *ssa.Function, name string, amountF, a
 						if bi, ok := call.Call.Value.(*ssa.Builtin); ok && bi.Name() == "append" && len(call.Call.Args) == 2 {
 							if _, base := anyFieldRead(call.Call.Args[0]); base == ssa.Value(lit) {
 								if sl, ok := call.Call.Args[1].(*ssa.Slice); ok {
+									rk := fmt.Sprintf("res%d", which)
 									if arr, ok := sl.X.(*ssa.Alloc); ok {
 										okShape = true
-										rk := fmt.Sprintf("res%d", which)
 										p.notes[rk] = append(p.notes[rk], p.notes["arr:"+arr.Name()]...)
 										p.strs[rk] = append(p.strs[rk], p.strs["arr:"+arr.Name()]...)
+									} else if descr(sl.X, 0) == fName+".Parts" && sl.Low != nil && sl.High == nil {
+										// the rest of the funding from an index on
+										okShape = true
+										p.notes[fmt.Sprintf("tail%d", which)] = append(p.notes[fmt.Sprintf("tail%d", which)], affOfHook(p, sl.Low))
 									}
 								}
 							}
@@ -157,7 +185,7 @@ func fundingSplit(c *Ctx, rule string, fn *ssa.Function, name string, amountF, a
 				}
 			}
 		case *ssa.IndexAddr:
-			// arr[k] = load(part literal)
+			// arr[k] = load(part value)
 			if arr, ok := a.X.(*ssa.Alloc); ok {
 				if u, ok := st.Val.(*ssa.UnOp); ok && u.Op == token.MUL {
 					if lit, ok := u.X.(*ssa.Alloc); ok {
@@ -193,44 +221,85 @@ func fundingSplit(c *Ctx, rule string, fn *ssa.Function, name string, amountF, a
 		}
 		return false
 	}
+	// exhausted: the path left loop li through the false side of `index < len(f.Parts)`
+	exhausted := func(p *affPath, li *loopInfo) bool {
+		for _, f := range p.facts {
+			bo, ok := f.X.(*ssa.BinOp)
+			if !ok || bo.Op != token.LSS {
+				continue
+			}
+			b, isB := constBool(f.Y)
+			if !isB || (b == f.Eq) != false {
+				continue
+			}
+			lenCall, ok := bo.Y.(*ssa.Call)
+			if !ok {
+				continue
+			}
+			if bi, ok := lenCall.Call.Value.(*ssa.Builtin); !ok || bi.Name() != "len" || descr(lenCall.Call.Args[0], 0) != fName+".Parts" {
+				continue
+			}
+			if bo.X == ssa.Value(li.idx) || bo.X.Name() == li.elemIdx {
+				return true
+			}
+		}
+		return false
+	}
 	var ev *affEval
-	nIter, nDrain, nPro, nHand, nEpi := 0, 0, 0, 0, 0
+	seen := map[string]int{}
 	visit := func(start *ssa.BasicBlock) func(p *affPath) {
 		return func(p *affPath) {
 			if len(p.strs["bad"]) > 0 {
 				obl.violate(kIter, fn.Pos(), "a result's part list is rebuilt from something else than itself plus freshly built parts (at "+strings.Join(p.strs["bad"], ", ")+")", []string{p.trail()})
 			}
 			res0, res1 := p.notes["res0"], p.notes["res1"]
+			accs := append(append([]string(nil), p.strs["res0"]...), p.strs["res1"]...)
 			all := sum(append(append([]aff(nil), res0...), res1...))
+			tails0, tails1 := p.notes["tail0"], p.notes["tail1"]
+			s, e := loops[start], loops[p.endHead]
 			switch {
-			case start == fn.Blocks[0] && p.endHead == takeHead: // prologue
-				nPro++
-				r, _ := ev.phiIn(p, rPhi)
-				i, _ := ev.phiIn(p, iPhi)
-				if !r.equal(amountSym) || !i.isZero() {
-					obl.violate(kPro, fn.Pos(), fmt.Sprintf("the taking loop starts with R = %s and i = %s (expected the requested amount and 0)", r, i), []string{p.trail()})
-				}
-				if !eqUnder(p, all, affZero()) {
-					obl.violate(kPro, fn.Pos(), fmt.Sprintf("before the loops parts adding up to `%s` are handed out under guards %v: funds appear from nowhere", all, p.guards), []string{p.trail()})
-				}
-			case start == takeHead && p.endHead == takeHead: // one taking iteration
-				nIter++
-				A := partAmount(iPhi)
-				if !all.equal(A) {
-					obl.violate(kIter, fn.Pos(), fmt.Sprintf("on path %s the parts appended in one iteration add up to `%s` instead of the consumed part `%s`: the split creates or loses funds", p.trail(), all, A), []string{p.trail()})
-				}
-				for _, acc := range append(append([]string(nil), p.strs["res0"]...), p.strs["res1"]...) {
-					if acc != partAccount(iPhi) {
-						obl.violate(kIter, fn.Pos(), fmt.Sprintf("a part built from part i is attributed to `%s` instead of `%s`: the posting will debit another account than the one the funds were withdrawn from", acc, partAccount(iPhi)), []string{p.trail()})
+			case p.endHead != nil && s == nil: // prologue: entry → loop e
+				seen["prologue"]++
+				if e.money != nil {
+					if r, _ := ev.phiIn(p, e.money); !r.equal(amountSym) {
+						obl.violate(kPro, fn.Pos(), fmt.Sprintf("the loop starts with `%s` still to take instead of the requested amount", r), []string{p.trail()})
 					}
 				}
-				r, _ := ev.phiIn(p, rPhi)
-				if !R.plus(r, -1).equal(sum(res0)) {
-					obl.violate(kIter, fn.Pos(), fmt.Sprintf("on path %s the remaining amount goes from `%s` to `%s` while `%s` is appended to the result: what is taken and what is counted as taken differ", p.trail(), R, r, sum(res0)), []string{p.trail()})
+				if i, _ := ev.phiIn(p, e.idx); !e.isRange && !i.isZero() {
+					obl.violate(kPro, fn.Pos(), fmt.Sprintf("the loop starts at part `%s` instead of part 0", i), []string{p.trail()})
 				}
-				i, _ := ev.phiIn(p, iPhi)
-				if !i.equal(I.plus(aff{"1": 1}, 1)) {
-					obl.violate(kIter, fn.Pos(), fmt.Sprintf("the part index goes from `%s` to `%s` (expected +1): a part is skipped or consumed twice", I, i), []string{p.trail()})
+				if !eqUnder(p, all, affZero()) || len(tails0)+len(tails1) > 0 {
+					obl.violate(kPro, fn.Pos(), fmt.Sprintf("before the loops parts adding up to `%s` are handed out under guards %v: funds appear from nowhere", all, p.guards), []string{p.trail()})
+				}
+			case p.endHead != nil && s == e: // one iteration of loop s
+				seen["iteration"]++
+				A := partAmount(s)
+				if len(tails0)+len(tails1) > 0 {
+					obl.violate(kIter, fn.Pos(), "the rest of the funding is appended in an iteration that continues the loop: the parts after this one are handed out twice", []string{p.trail()})
+				}
+				if !eqUnder(p, all, A) {
+					obl.violate(kIter, fn.Pos(), fmt.Sprintf("on path %s the parts appended in one iteration add up to `%s` instead of the consumed part `%s`: the split creates or loses funds", p.trail(), all, A), []string{p.trail()})
+				}
+				for _, acc := range accs {
+					if acc != partAccount(s) {
+						obl.violate(kIter, fn.Pos(), fmt.Sprintf("a part built from part %s is attributed to `%s` instead of `%s`: the posting will debit another account than the one the funds were withdrawn from", s.elemIdx, acc, partAccount(s)), []string{p.trail()})
+					}
+				}
+				R := affZero()
+				if s.money != nil {
+					R = affSym(descr(s.money, 0))
+					r, _ := ev.phiIn(p, s.money)
+					if !eqUnder(p, R.plus(r, -1), sum(res0)) {
+						obl.violate(kIter, fn.Pos(), fmt.Sprintf("on path %s the amount still to take goes from `%s` to `%s` while `%s` is appended to the result: what is taken and what is counted as taken differ", p.trail(), R, r, sum(res0)), []string{p.trail()})
+					}
+				} else if len(res0) > 0 {
+					obl.violate(kIter, fn.Pos(), "a loop that does not carry the amount still to take appends to the result", []string{p.trail()})
+				}
+				if !s.isRange {
+					I := affSym(descr(s.idx, 0))
+					if i, _ := ev.phiIn(p, s.idx); !i.equal(I.plus(aff{"1": 1}, 1)) {
+						obl.violate(kIter, fn.Pos(), fmt.Sprintf("the part index goes from `%s` to `%s` (expected +1): a part is skipped or consumed twice", I, i), []string{p.trail()})
+					}
 				}
 				for _, t := range res0 {
 					okT := t.equal(R) || (t.equal(A) && impliesNonNegative(p.guards, R.plus(A, -1)))
@@ -239,53 +308,72 @@ func fundingSplit(c *Ctx, rule string, fn *ssa.Function, name string, amountF, a
 					}
 				}
 				for _, t := range res1 {
-					if !(t.equal(A.plus(R, -1)) && impliesNonNegative(p.guards, t)) {
-						obl.violate(kIter, fn.Pos(), fmt.Sprintf("on path %s `%s` is left in the remainder under guards %v: not the provably non-negative excess of the part", p.trail(), t, p.guards), []string{p.trail()})
+					if !(t.equal(A) || (t.equal(A.plus(R, -1)) && impliesNonNegative(p.guards, t))) {
+						obl.violate(kIter, fn.Pos(), fmt.Sprintf("on path %s `%s` is left in the remainder under guards %v: not the part itself nor its provably non-negative excess", p.trail(), t, p.guards), []string{p.trail()})
 					}
 				}
-			case start == takeHead && p.endHead == drainHead: // hand-over
-				nHand++
-				j, _ := ev.phiIn(p, jPhi)
-				if !all.isZero() || len(res0)+len(res1) > 0 || !j.equal(I) {
-					obl.violate(kHand, fn.Pos(), fmt.Sprintf("between the loops: appended `%s`, draining index starts at `%s` instead of `%s`: the parts not consumed by the taking loop are not exactly the ones drained", all, j, I), []string{p.trail()})
+			case p.endHead != nil: // hand-over s → e
+				seen["hand-over"]++
+				if len(res0)+len(res1)+len(tails0)+len(tails1) > 0 {
+					obl.violate(kHand, fn.Pos(), fmt.Sprintf("parts adding up to `%s` are appended between two loops", all), []string{p.trail()})
 				}
-			case start == drainHead && p.endHead == drainHead:
-				nDrain++
-				A := partAmount(jPhi)
-				if len(res0) > 0 || !sum(res1).equal(A) || len(res1) != 1 {
-					obl.violate(kDrain, fn.Pos(), fmt.Sprintf("a draining iteration appends `%s` to the result and `%s` to the remainder instead of nothing and `%s`", sum(res0), sum(res1), A), []string{p.trail()})
+				if j, _ := ev.phiIn(p, e.idx); e.isRange || !j.equal(s.elemAff) {
+					obl.violate(kHand, fn.Pos(), fmt.Sprintf("the next loop starts at `%s` instead of `%s`, where the previous one stopped: parts are skipped or consumed twice", j, s.elemAff), []string{p.trail()})
 				}
-				for _, acc := range p.strs["res1"] {
-					if acc != partAccount(jPhi) {
-						obl.violate(kDrain, fn.Pos(), fmt.Sprintf("a drained part is attributed to `%s` instead of `%s`", acc, partAccount(jPhi)), []string{p.trail()})
+				if e.money != nil {
+					want := amountSym
+					if s.money != nil {
+						want = affSym(descr(s.money, 0))
 					}
-				}
-				j, _ := ev.phiIn(p, jPhi)
-				if !j.equal(J.plus(aff{"1": 1}, 1)) {
-					obl.violate(kDrain, fn.Pos(), fmt.Sprintf("the draining index goes from `%s` to `%s` (expected +1)", J, j), []string{p.trail()})
+					if r, _ := ev.phiIn(p, e.money); !r.equal(want) {
+						obl.violate(kHand, fn.Pos(), fmt.Sprintf("the next loop starts with `%s` still to take instead of `%s`", r, want), []string{p.trail()})
+					}
 				}
 			case p.ret != nil:
-				if len(res0)+len(res1) > 0 && start != fn.Blocks[0] {
-					obl.violate(kDrain, p.ret.Pos(), "parts are appended after the loops", []string{p.trail()})
+				seen["return"]++
+				if s != nil {
+					// leaving loop s for good
+					tailOK := len(tails1) == 1 && len(tails0) == 0 && len(res0)+len(res1) == 0 && tails1[0].equal(s.elemAff)
+					if len(tails0)+len(tails1)+len(res0)+len(res1) > 0 && !tailOK {
+						obl.violate(kEnd, p.ret.Pos(), fmt.Sprintf("on the way out of the loop parts are appended that are not exactly the rest of the funding from the current part on (result: %v %v, remainder: %v %v, current part %s)", res0, tails0, res1, tails1, s.elemAff), []string{p.trail()})
+					}
+					if !tailOK && !exhausted(p, s) {
+						obl.violate(kEnd, p.ret.Pos(), "the function returns from inside the loop over the parts without having consumed (or handed back) the remaining parts: funds disappear", []string{p.trail()})
+					}
+				} else if len(res0)+len(res1)+len(tails0)+len(tails1) > 0 {
+					if !eqUnder(p, all, affZero()) {
+						obl.violate(kPro, p.ret.Pos(), "parts are handed out on a path that never enters the loops", []string{p.trail()})
+					}
 				}
 				if needExact && isNilConst(p.ret.Results[len(p.ret.Results)-1]) {
-					nEpi++
+					seen["success"]++
 					okG := false
-					for _, g := range p.guards {
-						if g.op == "==0" && (g.e.equal(R) || g.e.equal(affZero().plus(R, -1))) {
-							okG = true
+					for _, li := range loops {
+						if li.money == nil {
+							continue
+						}
+						R := affSym(descr(li.money, 0))
+						for _, g := range p.guards {
+							if g.op == "==0" && (g.e.equal(R) || g.e.equal(affZero().plus(R, -1))) {
+								okG = true
+							}
 						}
 					}
 					if !okG {
-						obl.violate(kEpi, p.ret.Pos(), fmt.Sprintf("a success return is reached without the guard `%s = 0` (guards %v): a funding shorter than the requested amount is handed out as if it covered it", R, p.guards), []string{p.trail()})
+						obl.violate(kEpi, p.ret.Pos(), fmt.Sprintf("a success return is reached without the guard `remaining = 0` (guards %v): a funding shorter than the requested amount is handed out as if it covered it", p.guards), []string{p.trail()})
 					}
 				}
 			default:
-				obl.undecided(key("segment"), fn.Pos(), fmt.Sprintf("unexpected segment from block %d to %v", start.Index, p.endHead))
+				obl.undecided(key("segment"), fn.Pos(), fmt.Sprintf("unexpected segment from block %d", start.Index))
 			}
 		}
 	}
-	starts := []*ssa.BasicBlock{fn.Blocks[0], takeHead, drainHead}
+	starts := []*ssa.BasicBlock{fn.Blocks[0]}
+	for _, b := range fn.Blocks {
+		if heads[b] {
+			starts = append(starts, b)
+		}
+	}
 	for _, s := range starts {
 		ev = &affEval{c: c, fn: fn, isCell: func(ssa.Value) (string, bool) { return "", false }, amountF: nil, zero: zero, heads: heads, hook: hook}
 		ev.visit = visit(s)
@@ -293,8 +381,8 @@ func fundingSplit(c *Ctx, rule string, fn *ssa.Function, name string, amountF, a
 			obl.undecided(key("path-budget"), fn.Pos(), "too many paths")
 		}
 	}
-	if nPro == 0 || nIter == 0 || nHand == 0 || nDrain == 0 || (needExact && nEpi == 0) {
-		obl.undecided(key("segments-seen"), fn.Pos(), fmt.Sprintf("segments seen: prologue %d, taking %d, hand-over %d, draining %d, success returns %d", nPro, nIter, nHand, nDrain, nEpi))
+	if seen["prologue"] == 0 || seen["iteration"] == 0 || seen["return"] == 0 || (needExact && seen["success"] == 0) {
+		obl.undecided(key("segments-seen"), fn.Pos(), fmt.Sprintf("segments seen: %v", seen))
 	}
 }
 
